@@ -185,4 +185,366 @@ theorem boxEnforced_needed (hk : 0 < k) (hk1 : k < 1) :
     (exBool_hyps hk).1, (exBool_hyps hk).2, exBool_not_enforced hk1, ?_⟩
   intro hiff
   exact exBool_not_srcFeasible hk1 (hiff.mpr ⟨fun _ => 1, fun _ _ => rfl, exBool_linFeasible⟩)
+
+/-! ### the definedness hypothesis -/
+
+/-- `min x  s.t.  c: 0 * (x / 0) ≤ 1`, `x` a free real: the constraint is undefined at every assignment. -/
+def exUndef : Model (Ext K) :=
+  { optType := .min, objective := .var "x",
+    constraints := [{ name := "c", lhs := .bin .mul (.num (.fin 0)) (.bin .div (.var "x") (.num (.fin 0))),
+                      cmp := .le, rhs := .num (.fin 1), isAssert := false }],
+    domain := [{ name := "x", ty := .real .ninf .pinf, usage := 1 }] }
+
+def exUndefC : Constraint (Ext K) :=
+  { name := "c", lhs := .bin .mul (.num (.fin 0)) (.bin .div (.var "x") (.num (.fin 0))),
+    cmp := .le, rhs := .num (.fin 1), isAssert := false }
+
+theorem exUndef_norm_lhs : normalizeExp (.bin .mul (.num (.fin 0)) (.bin .div (.var "x") (.num (.fin 0))) : Exp (Ext K))
+    = some (.num (.fin 0)) := by
+  simp [normalizeExp, flattenFuel, flattenF, simplify, mulCore, divCore, isNumEq, ext_eq_fin]
+
+theorem exUndef_norm_rhs : normalizeExp (.num (.fin 1) : Exp (Ext K)) = some (.num (.fin 1)) := by
+  simp [normalizeExp, flattenFuel, flattenF, simplify]
+
+/-- the constraint is folded to `0 ≤ 1`, recognised as a tautology, and dropped. -/
+theorem exUndef_proc (s : St (Ext K)) : processConstraint (exUndefC : Constraint (Ext K)) s = .ok ((), s) := by
+  unfold processConstraint dispatch exUndefC
+  simp only [bind_ok, get_ok, simplifyFlat_ok]
+  refine ⟨_, _, ⟨_, exUndef_norm_lhs, rfl⟩, _, _, ⟨_, exUndef_norm_rhs, rfl⟩, ?_⟩
+  simp only [Bool.false_eq_true, if_false, bind_ok, get_ok]
+  refine ⟨s, s, rfl, ?_⟩
+  have : tryNormalize s.domain (.num (.fin 0) : Exp (Ext K)) .le (.num (.fin 1)) = some .tautology := by
+    simp [tryNormalize, isLogicValue, cmpHolds, Arith.eq, Arith.le, ext_eq_fin, ext_le_fin]
+  simp only [this, pure_ok]
+
+theorem exUndef_drain (s : St (Ext K)) (hs : s.queue = (exUndef : Model (Ext K)).constraints) :
+    drain drainFuel s = .ok ((), { s with queue := [] }) := by
+  have h1 : drainFuel = 999998 + 1 + 1 := rfl
+  rw [h1, drain_succ]
+  simp only [bind_ok, get_ok]
+  refine ⟨s, s, rfl, ?_⟩
+  simp only [hs, exUndef, bind_ok, set_ok]
+  refine ⟨_, _, rfl, _, _, exUndef_proc _, ?_⟩
+  rw [drain_succ]
+  simp only [bind_ok, get_ok]
+  exact ⟨_, _, rfl, by simp [pure_ok]⟩
+
+noncomputable def exUndefLM : LinModel (Ext K) :=
+  assemble exUndef (Ctx.fromVar "x" Arith.one)
+    { queue := [], rows := [], domain := (exUndef : Model (Ext K)).domain, bounds := [] }
+
+theorem exUndef_ok : linearizeWith (exUndef : Model (Ext K)) [] (exUndef : Model (Ext K)).domain = .ok exUndefLM := by
+  let s0 : St (Ext K) := { queue := (exUndef : Model (Ext K)).constraints, domain := (exUndef : Model (Ext K)).domain, bounds := [] }
+  refine (linearizeWith_ok_iff _ _ _ _).mpr
+    ⟨.var "x", s0, Ctx.fromVar "x" Arith.one, s0, _, ?_, ?_, exUndef_drain s0 rfl, rfl⟩
+  · simp [simplifyFlat, normalizeExp, flattenFuel, flattenF, simplify, pure_ok, exUndef, s0]
+  · simp [linExp, pure_ok]
+
+theorem exUndef_linFeasible (ρ : String → K) : linFeasible (exUndefLM : LinModel (Ext K)) ρ = true := by
+  simp [exUndefLM, assemble, linFeasible, exUndef, dedupNames, sortStr, insertSortedDup, inDomain, geExt, leExt]
+
+theorem exUndef_not_srcFeasible (ρ : String → K) : ¬ srcFeasible (exUndef : Model (Ext K)) ρ = true := by
+  intro h
+  have := ((srcFeasible_iff _ _).mp h).1 exUndefC (by simp [exUndef, exUndefC])
+  simp [constraintHolds, exUndefC, eval, binVal] at this
+
+/-- **Why definedness is a hypothesis**: `c: 0 * (x / 0) ≤ 1` has no value at any assignment (division by
+zero), so the source model is infeasible; `simplify` folds the product to `0`, the comparison becomes the
+tautology `0 ≤ 1` and is dropped: every assignment is feasible for the linear model.  Everything else
+`c01_partial` asks for holds (the model is affine, the bounds map is empty). -/
+theorem defined_needed :
+    ∃ (m : Model (Ext K)) (b : BoundsMap (Ext K)) (d : List (DomVar (Ext K))) (lm : LinModel (Ext K)),
+      linearizeWith m b d = .ok lm ∧ DomRel m d ∧ BoxEnforced b d ∧
+      (∀ c ∈ m.constraints, c.isAssert = false ∧ FG true (inScope d) c.lhs ∧ FG true (inScope d) c.rhs) ∧
+      (∀ ρ : String → K, ¬ srcFeasible m ρ = true) ∧ (∀ ρ : String → K, linFeasible lm ρ = true) := by
+  have sx : inScope (exUndef : Model (Ext K)).domain "x" :=
+    ⟨{ name := "x", ty := .real .ninf .pinf, usage := 1 }, by simp [exUndef], rfl, by simp⟩
+  refine ⟨exUndef, [], exUndef.domain, exUndefLM, exUndef_ok, ⟨by simp [exUndef], fun _ h => h, ?_, ?_⟩, ?_, ?_,
+    exUndef_not_srcFeasible, exUndef_linFeasible⟩
+  · intro ρ h; exact ((srcFeasible_iff _ ρ).mp h).2
+  · intro dv hdv hu; exact ⟨dv, hdv, rfl, hu⟩
+  · intro ρ _ n bd hl; simp [lookupB] at hl
+  · intro c hc
+    simp only [exUndef, List.mem_singleton] at hc
+    subst hc
+    exact ⟨rfl, FG_bin.mpr ⟨rfl, FG_num _, FG_bin.mpr ⟨rfl, FG_var.mpr sx, FG_num _⟩⟩, FG_num _⟩
+
+/-! ### a decidable sufficient condition for definedness on the piecewise-linear fragment -/
+
+mutual
+/-- every literal is finite, every divisor is a non-zero finite literal, no `min`/`max` is empty. -/
+noncomputable def wellDef : Exp (Ext K) → Bool
+  | .num v => Arith.isFinite v
+  | .var _ => true
+  | .abs e => wellDef e
+  | .un .neg e => wellDef e
+  | .min es => !es.isEmpty && wellDefList es
+  | .max es => !es.isEmpty && wellDefList es
+  | .bin .div a (.num d) => wellDef a && Arith.isFinite d && !(Arith.eq d Arith.zero)
+  | .bin .div _ _ => false
+  | .bin op a b => isArithOp op && wellDef a && wellDef b
+  | _ => false
+noncomputable def wellDefList : List (Exp (Ext K)) → Bool
+  | [] => true
+  | e :: es => wellDef e && wellDefList es
+end
+
+theorem wellDefList_iff : ∀ es : List (Exp (Ext K)), wellDefList es = true ↔ ∀ e ∈ es, wellDef e = true
+  | [] => by simp [wellDefList]
+  | e :: es => by simp [wellDefList, wellDefList_iff es]
+
+theorem evalList_of_all {ρ : String → K} : ∀ (es : List (Exp (Ext K))), (∀ e ∈ es, ∃ v, eval ρ e = some v) →
+    ∃ vs, evalList ρ es = some vs ∧ vs.length = es.length
+  | [], _ => ⟨[], by simp [evalList], rfl⟩
+  | e :: es, h => by
+    obtain ⟨v, hv⟩ := h e (by simp)
+    obtain ⟨vs, hvs, hl⟩ := evalList_of_all es (fun e' he' => h e' (by simp [he']))
+    exact ⟨v :: vs, by simp [evalList, hv, hvs], by simp [hl]⟩
+
+theorem definedE_of_wellDef : ∀ e : Exp (Ext K), wellDef e = true → DefinedE e := by
+  intro e
+  induction e using Exp.indL with
+  | num v =>
+    intro h ρ
+    simp only [wellDef] at h
+    obtain ⟨k, rfl⟩ := (isFinite_iff v).mp h
+    exact ⟨k, eval_num_fin ρ k⟩
+  | var x => intro _ ρ; exact ⟨ρ x, eval_var ρ x⟩
+  | abs e ih =>
+    intro h ρ
+    simp only [wellDef] at h
+    obtain ⟨v, hv⟩ := ih h ρ
+    exact ⟨kabs v, by rw [eval]; simp [hv]⟩
+  | un op e ih =>
+    intro h ρ
+    cases op with
+    | not => simp [wellDef] at h
+    | neg =>
+      simp only [wellDef] at h
+      obtain ⟨v, hv⟩ := ih h ρ
+      exact ⟨_, eval_negExp hv⟩
+  | max es ih =>
+    intro h ρ
+    simp only [wellDef, Bool.and_eq_true, Bool.not_eq_true', wellDefList_iff] at h
+    obtain ⟨vs, hvs, hl⟩ := evalList_of_all (ρ := ρ) es (fun e he => ih e he (h.2 e he) ρ)
+    cases vs with
+    | nil =>
+      have : es = [] := List.length_eq_zero_iff.mp hl.symm
+      rw [this] at h; simp at h
+    | cons x xs => exact ⟨_, eval_max_of_list hvs⟩
+  | min es ih =>
+    intro h ρ
+    simp only [wellDef, Bool.and_eq_true, Bool.not_eq_true', wellDefList_iff] at h
+    obtain ⟨vs, hvs, hl⟩ := evalList_of_all (ρ := ρ) es (fun e he => ih e he (h.2 e he) ρ)
+    cases vs with
+    | nil =>
+      have : es = [] := List.length_eq_zero_iff.mp hl.symm
+      rw [this] at h; simp at h
+    | cons x xs => exact ⟨_, eval_min_of_list hvs⟩
+  | bin op a b iha ihb =>
+    intro h ρ
+    cases op with
+    | div =>
+      rcases num_or_not b with ⟨d, rfl⟩ | hnb
+      · simp only [wellDef, Bool.and_eq_true, Bool.not_eq_true'] at h
+        obtain ⟨⟨ha, hfd⟩, hd0⟩ := h
+        obtain ⟨k, rfl⟩ := (isFinite_iff d).mp hfd
+        obtain ⟨v, hv⟩ := iha ha ρ
+        have hk : k ≠ 0 := by
+          intro hk0; rw [hk0] at hd0
+          simp [Arith.eq, ext_eq_fin] at hd0
+        exact ⟨v / k, by simp [eval_bin, hv, eval_num_fin, binVal, hk]⟩
+      · exfalso
+        cases b <;> simp [wellDef] at h
+        exact hnb _ rfl
+    | add =>
+      simp only [wellDef, isArithOp, Bool.and_eq_true, Bool.true_and] at h
+      obtain ⟨x, hx⟩ := iha h.1 ρ; obtain ⟨y, hy⟩ := ihb h.2 ρ
+      exact ⟨x + y, by simp [eval_bin, hx, hy, binVal]⟩
+    | sub =>
+      simp only [wellDef, isArithOp, Bool.and_eq_true, Bool.true_and] at h
+      obtain ⟨x, hx⟩ := iha h.1 ρ; obtain ⟨y, hy⟩ := ihb h.2 ρ
+      exact ⟨x - y, by simp [eval_bin, hx, hy, binVal]⟩
+    | mul =>
+      simp only [wellDef, isArithOp, Bool.and_eq_true, Bool.true_and] at h
+      obtain ⟨x, hx⟩ := iha h.1 ρ; obtain ⟨y, hy⟩ := ihb h.2 ρ
+      exact ⟨x * y, by simp [eval_bin, hx, hy, binVal]⟩
+    | _ => simp [wellDef, isArithOp] at h
+  | _ => intro h; simp [wellDef] at h
+
+
+/-! ### a model that really introduces an auxiliary: non-vacuity of `c01_partial` / `c02_partial` -/
+
+/-- `min y  s.t.  c: abs{x} ≤ y`, `x ∈ [-1, 2]`, `y` free. -/
+def exAbs : Model (Ext K) :=
+  { optType := .min, objective := .var "y",
+    constraints := [{ name := "c", lhs := .abs (.var "x"), cmp := .le, rhs := .var "y", isAssert := false }],
+    domain := [{ name := "x", ty := .real (.fin (-1)) (.fin 2), usage := 1 },
+               { name := "y", ty := .real .ninf .pinf, usage := 1 }] }
+
+def exAbsBounds : BoundsMap (Ext K) := [("x", ⟨.fin (-1), .fin 2⟩)]
+
+def exAbsInner : Exp (Ext K) := .bin .add (.num (.fin 0)) (.bin .mul (.num (.fin 1)) (.var "x"))
+
+theorem exAbs_norm_abs : normalizeExp (.abs (.var "x") : Exp (Ext K)) = some (.abs (.var "x")) := by
+  simp [normalizeExp, flattenFuel, flattenF, simplify]
+theorem exAbs_norm_var (n : String) : normalizeExp (.var n : Exp (Ext K)) = some (.var n) := by
+  simp [normalizeExp, flattenFuel, flattenF, simplify]
+theorem exAbs_norm_sub1 : normalizeExp (.bin .sub (.abs (.var "x")) (.var "y") : Exp (Ext K))
+    = some (.bin .sub (.abs (.var "x")) (.var "y")) := by
+  simp [normalizeExp, flattenFuel, flattenF, simplify, subCore]
+theorem exAbs_norm_inner : normalizeExp (exAbsInner : Exp (Ext K)) = some (.var "x") := by
+  simp [exAbsInner, normalizeExp, flattenFuel, flattenF, simplify, addCore, mulCore, isNumEq, ext_eq_fin]
+theorem exAbs_norm_neg_inner : normalizeExp (.un .neg exAbsInner : Exp (Ext K)) = some (.un .neg (.var "x")) := by
+  simp [exAbsInner, normalizeExp, flattenFuel, flattenF, simplify, addCore, mulCore, isNumEq, ext_eq_fin]
+theorem exAbs_norm_sub2 (v : String) : normalizeExp (.bin .sub (.var v) (.un .neg (.var "x")) : Exp (Ext K))
+    = some (.bin .sub (.var v) (.un .neg (.var "x"))) := by
+  simp [normalizeExp, flattenFuel, flattenF, simplify, subCore]
+theorem exAbs_norm_sub3 (v : String) : normalizeExp (.bin .sub (.var v) (.var "x") : Exp (Ext K))
+    = some (.bin .sub (.var v) (.var "x")) := by
+  simp [normalizeExp, flattenFuel, flattenF, simplify, subCore]
+
+/-- the abs gadget on `abs{x}` with `x ∈ [-1, 2]`, requirement `lower`. -/
+theorem exAbs_lin_abs (s : St (Ext K)) (hb : lookupB s.bounds "x" = some ⟨.fin (-1), .fin 2⟩)
+    (hf : toString "$abs_" ++ toString s.absCount ∉ s.domain.map (·.name)) :
+    linExp (.abs (.var "x") : Exp (Ext K)) .lower s = .ok (Ctx.fromVar (toString "$abs_" ++ toString s.absCount) Arith.one,
+      absState1 s (toString "$abs_" ++ toString s.absCount) ⟨.fin (-1), .fin 2⟩ exAbsInner) := by
+  rw [linExp]
+  simp only [bind_ok, get_ok]
+  refine ⟨s, s, rfl, ?_⟩
+  have hbo : boundsOf s.bounds (.var "x" : Exp (Ext K)) = ⟨.fin (-1), .fin 2⟩ := by simp [boundsOf, hb]
+  rw [hbo]
+  have h1 : ¬ (Arith.ge (Ext.fin (-1) : Ext K) Arith.zero = true) := by simp [Arith.ge, Arith.le, ext_le_fin]
+  have h2 : ¬ (Arith.le (Ext.fin 2 : Ext K) Arith.zero = true) := by simp [Arith.le, ext_le_fin]
+  simp only [if_neg h1, if_neg h2]
+  simp only [ite_ok, bind_ok, pure_ok, fail_ok, get_ok, set_ok, declareVariable_ok, addConstraint_ok]
+  right
+  refine ⟨by simp, Ctx.fromVar "x" Arith.one, s, by simp [linExp, pure_ok], ?_⟩
+  refine ⟨s, s, rfl, ⟨⟩, _, rfl, ⟨⟩, _, ⟨hf, rfl⟩, ⟨⟩, _, rfl, ⟨⟩, _, rfl, Or.inr ⟨by simp, ?_⟩⟩
+  simp [absState1, bumpAbs, pushC, exAbsInner, fromVar_eq, ctxToExp]
+
+theorem exAbs_emit_c (s : St (Ext K)) (hb : lookupB s.bounds "x" = some ⟨.fin (-1), .fin 2⟩)
+    (hf : toString "$abs_" ++ toString s.absCount ∉ s.domain.map (·.name)) :
+    ∃ row, emitConstraint (.abs (.var "x") : Exp (Ext K)) .le (.var "y") "c" s = .ok ((),
+      addRow (absState1 s (toString "$abs_" ++ toString s.absCount) ⟨.fin (-1), .fin 2⟩ exAbsInner) row) := by
+  let cx : Ctx (Ext K) := (Ctx.fromVar (toString "$abs_" ++ toString s.absCount) Arith.one).mergeSub
+    (Ctx.fromVar "y" Arith.one)
+  refine ⟨{ name := "c", lhs := cx.vars, rhs := Arith.neg cx.rhs, cmp := .le }, ?_⟩
+  rw [emitConstraint_ok]
+  refine ⟨_, cx, _, exAbs_norm_sub1, ?_, rfl⟩
+  rw [linExp]
+  simp only [bind_ok, pure_ok]
+  exact ⟨_, _, exAbs_lin_abs s hb hf, Ctx.fromVar "y" Arith.one, _, by simp [linExp, pure_ok], rfl⟩
+
+theorem exAbs_proc_c (s : St (Ext K)) (hb : lookupB s.bounds "x" = some ⟨.fin (-1), .fin 2⟩)
+    (hf : toString "$abs_" ++ toString s.absCount ∉ s.domain.map (·.name)) :
+    ∃ row, processConstraint ({ name := "c", lhs := .abs (.var "x"), cmp := .le, rhs := .var "y", isAssert := false } :
+      Constraint (Ext K)) s = .ok ((),
+      addRow (absState1 s (toString "$abs_" ++ toString s.absCount) ⟨.fin (-1), .fin 2⟩ exAbsInner) row) := by
+  obtain ⟨row, hrow⟩ := exAbs_emit_c s hb hf
+  refine ⟨row, ?_⟩
+  unfold processConstraint dispatch
+  simp only [bind_ok, get_ok, simplifyFlat_ok]
+  refine ⟨_, _, ⟨_, exAbs_norm_abs, rfl⟩, _, _, ⟨_, exAbs_norm_var "y", rfl⟩, ?_⟩
+  simp only [Bool.false_eq_true, if_false, bind_ok, get_ok]
+  refine ⟨s, s, rfl, ?_⟩
+  have : tryNormalize s.domain (.abs (.var "x") : Exp (Ext K)) .le (.var "y") = none := by
+    simp [tryNormalize]
+  simp only [this]
+  exact hrow
+
+/-- an auxiliary row `v ≥ rhs` whose right side normalises to `rhs'`, an affine expression in `x`. -/
+theorem exAbs_proc_aux (s : St (Ext K)) (v : String) (rhs rhs' : Exp (Ext K))
+    (hn : normalizeExp rhs = some rhs')
+    (hn2 : normalizeExp (.bin .sub (.var v) rhs' : Exp (Ext K)) = some (.bin .sub (.var v) rhs'))
+    (hshape : rhs' = .var "x" ∨ rhs' = .un .neg (.var "x")) :
+    ∃ row, processConstraint ({ name := "", lhs := .var v, cmp := .ge, rhs := rhs, isAssert := false } :
+      Constraint (Ext K)) s = .ok ((), addRow s row) := by
+  have hlin : ∃ c, linExp (.bin .sub (.var v) rhs' : Exp (Ext K)) .higher s = .ok (c, s) := by
+    rcases hshape with rfl | rfl
+    · exact ⟨(Ctx.fromVar v Arith.one).mergeSub (Ctx.fromVar "x" Arith.one), by simp [linExp, bind_ok, pure_ok]⟩
+    · exact ⟨(Ctx.fromVar v Arith.one).mergeSub ((Ctx.fromVar "x" Arith.one).mulBy (Arith.ofInt (-1))),
+        by simp [linExp, bind_ok, pure_ok]⟩
+  obtain ⟨c, hc⟩ := hlin
+  refine ⟨{ name := "", lhs := c.vars, rhs := Arith.neg c.rhs, cmp := .ge }, ?_⟩
+  unfold processConstraint dispatch
+  simp only [bind_ok, get_ok, simplifyFlat_ok]
+  refine ⟨_, _, ⟨_, exAbs_norm_var v, rfl⟩, _, _, ⟨_, hn, rfl⟩, ?_⟩
+  simp only [Bool.false_eq_true, if_false, bind_ok, get_ok]
+  refine ⟨s, s, rfl, ?_⟩
+  have : tryNormalize s.domain (.var v : Exp (Ext K)) .ge rhs' = none := by
+    rcases hshape with rfl | rfl <;> simp [tryNormalize]
+  simp only [this]
+  rw [emitConstraint_ok]
+  exact ⟨_, c, s, hn2, hc, rfl⟩
+
+theorem drain_nil (n : Nat) (s : St (Ext K)) (hq : s.queue = []) : drain (n + 1) s = .ok ((), s) := by
+  rw [drain_succ]
+  simp only [bind_ok, get_ok]
+  exact ⟨s, s, rfl, by simp [hq, pure_ok]⟩
+
+theorem drain_cons (n : Nat) (s s1 : St (Ext K)) (c : Constraint (Ext K)) (rest : List (Constraint (Ext K)))
+    (hq : s.queue = c :: rest) (hp : processConstraint c { s with queue := rest } = .ok ((), s1)) (r : Unit × St (Ext K))
+    (hd : drain n s1 = .ok r) : drain (n + 1) s = .ok r := by
+  rw [drain_succ]
+  simp only [bind_ok, get_ok]
+  refine ⟨s, s, rfl, ?_⟩
+  simp only [hq, bind_ok, set_ok]
+  exact ⟨_, _, rfl, _, _, hp, hd⟩
+
+theorem exAbs_ok : ∃ lm, linearizeWith (exAbs : Model (Ext K)) exAbsBounds (exAbs : Model (Ext K)).domain = .ok lm := by
+  let s0 : St (Ext K) := { queue := (exAbs : Model (Ext K)).constraints, domain := (exAbs : Model (Ext K)).domain, bounds := exAbsBounds }
+  have hb0 : lookupB s0.bounds "x" = some ⟨.fin (-1), .fin 2⟩ := by simp [s0, exAbsBounds, lookupB]
+  have hf0 : toString "$abs_" ++ toString ({ s0 with queue := [] } : St (Ext K)).absCount ∉
+      ({ s0 with queue := [] } : St (Ext K)).domain.map (·.name) := by
+    simp [s0, exAbs]; decide
+  obtain ⟨row, hproc⟩ := exAbs_proc_c { s0 with queue := [] } hb0 hf0
+  set v := toString "$abs_" ++ toString ({ s0 with queue := [] } : St (Ext K)).absCount with hv
+  set s1 := addRow (absState1 { s0 with queue := [] } v ⟨.fin (-1), .fin 2⟩ exAbsInner) row with hs1
+  have hq1 : s1.queue = [mkC (.var v) .ge (.un .neg exAbsInner), mkC (.var v) .ge exAbsInner] := rfl
+  obtain ⟨row2, hp2⟩ := exAbs_proc_aux { s1 with queue := [mkC (.var v) .ge exAbsInner] } v (.un .neg exAbsInner) _
+    exAbs_norm_neg_inner (exAbs_norm_sub2 v) (Or.inr rfl)
+  obtain ⟨row3, hp3⟩ := exAbs_proc_aux
+    { (addRow { s1 with queue := [mkC (.var v) .ge exAbsInner] } row2) with queue := [] } v exAbsInner _
+    exAbs_norm_inner (exAbs_norm_sub3 v) (Or.inl rfl)
+  have hdrain : ∃ s3, drain drainFuel s0 = .ok ((), s3) := by
+    have h1 : drainFuel = 999995 + 1 + 1 + 1 + 1 + 1 := rfl
+    rw [h1]
+    have key : ∀ r, drain (999995 + 1 + 1) (addRow { (addRow { s1 with queue := [mkC (.var v) .ge exAbsInner] } row2) with queue := [] } row3) = .ok r →
+        drain (999995 + 1 + 1 + 1 + 1 + 1) s0 = .ok r := by
+      intro r hr
+      apply drain_cons _ s0 s1 _ [] rfl hproc
+      apply drain_cons _ s1 _ _ _ hq1 hp2
+      apply drain_cons _ _ _ _ [] rfl hp3
+      exact hr
+    exact ⟨_, key _ (drain_nil (999995 + 1) _ rfl)⟩
+  obtain ⟨s3, hs3⟩ := hdrain
+  exact ⟨_, (linearizeWith_ok_iff _ _ _ _).mpr ⟨.var "y", s0, Ctx.fromVar "y" Arith.one, s0, s3,
+    by simp [simplifyFlat_ok, exAbs_norm_var, exAbs, s0], by simp [linExp, pure_ok], hs3, rfl⟩⟩
+
+theorem exAbs_hyps : FragModel true (exAbs : Model (Ext K)) (exAbs : Model (Ext K)).domain ∧
+    DomRel (exAbs : Model (Ext K)) (exAbs : Model (Ext K)).domain ∧
+    BoxEnforced (exAbsBounds : BoundsMap (Ext K)) (exAbs : Model (Ext K)).domain := by
+  have sx : inScope (exAbs : Model (Ext K)).domain "x" :=
+    ⟨{ name := "x", ty := .real (.fin (-1)) (.fin 2), usage := 1 }, by simp [exAbs], rfl, by simp⟩
+  have sy : inScope (exAbs : Model (Ext K)).domain "y" :=
+    ⟨{ name := "y", ty := .real .ninf .pinf, usage := 1 }, by simp [exAbs], rfl, by simp⟩
+  refine ⟨⟨FG_var.mpr sy, fun ρ => ⟨ρ "y", by simp [exAbs, eval]⟩, ?_⟩,
+    ⟨by simp [exAbs], fun _ h => h, fun ρ h => ((srcFeasible_iff _ ρ).mp h).2,
+      fun dv hdv hu => ⟨dv, hdv, rfl, hu⟩⟩, ?_⟩
+  · intro c hc
+    simp only [exAbs, List.mem_singleton] at hc
+    subst hc
+    refine ⟨rfl, FG_abs.mpr (FG_var.mpr sx), FG_var.mpr sy, fun ρ => ⟨|ρ "x"|, ρ "y", ?_, by simp [eval]⟩⟩
+    rw [eval]; simp [eval, kabs_eq]
+  · intro ρ hd n bd hl
+    simp only [exAbsBounds, lookupB_cons] at hl
+    by_cases hn : "x" = n
+    · subst hn
+      simp only [if_true, Option.some.injEq] at hl
+      subst hl
+      have := hd { name := "x", ty := .real (.fin (-1)) (.fin 2), usage := 1 } (by simp [exAbs]) (by simp)
+      exact (inDomain_real_iff _ _ _).mp this
+    · simp [hn, lookupB] at hl
+
 end Rooc.LinP
